@@ -65,7 +65,8 @@ def shards(tier):
     sz = scope(tier)["sizes"]
     out = [dict(part="tile", W=W, H=H, k=k) for W in sz for H in sz
            for k in range(4)]
-    out += [dict(part="ragged"), dict(part="fpga"), dict(part="dims")]
+    out += [dict(part="ragged"), dict(part="fpga"), dict(part="dims"),
+            dict(part="history")]
     return out
 
 
@@ -119,25 +120,37 @@ def part_tile(W, H, k, acc):
                                                     if r % 4 == k]))
 
 
+RAGGED = [[8, 8], [16, 16], [20, 12], [28, 16], [12, 16], [13, 1], [1, 13]]
+RAGGED_ROOTS = [(rx, ry) for rx in (0, 4, 5, 8) for ry in (0, 3, 4, 8, 11)]
+
+
 def part_ragged(acc):
+    """Machines that are not whole numbers of 12x12 cells: a window of the
+    rounded-up torus.  The Ethernet list must be exactly the tiling's
+    Ethernet chips that fall inside the window, for every root offset."""
     from rig import geometry as g
-    for w, h in scope("quick")["ragged"]:
+    for w, h in RAGGED:
         W = ((w + 11) // 12) * 12
         H = ((h + 11) // 12) * 12
-        inside = set()
-        for x in range(W):
-            for y in range(H):
-                e, c = tile(x, y, W, H, 0, 0)
-                if c == (0, 0) and x < w and y < h:
-                    inside.add((x, y))
-        acc.evaluations += 1
-        acc.nontrivial += 1
-        got = list(g.spinn5_eth_coords(w, h))
-        if set(got) != inside or len(got) != len(set(got)):
-            acc.violation(dict(kind="eth_coords_ragged"),
-                          dict(part="ragged", w=w, h=h),
-                          "spinn5_eth_coords(%d,%d) = %r, expected %r"
-                          % (w, h, sorted(got), sorted(inside)))
+        for rx, ry in RAGGED_ROOTS:
+            inside = set()
+            for x in range(w):
+                for y in range(h):
+                    e, c = tile(x, y, W, H, rx, ry)
+                    if c == (0, 0):
+                        inside.add((x, y))
+            acc.evaluations += 1
+            acc.nontrivial += 1
+            try:
+                got = list(g.spinn5_eth_coords(w, h, rx, ry))
+            except Exception as ex:
+                got = [repr(ex)]
+            if set(got) != inside or len(got) != len(set(got)):
+                acc.violation(dict(kind="eth_coords_ragged"),
+                              dict(part="ragged", w=w, h=h, root=[rx, ry]),
+                              "spinn5_eth_coords(%d,%d,%d,%d) = %r, Ethernet "
+                              "chips of the tiling inside the machine: %r"
+                              % (w, h, rx, ry, sorted(got), sorted(inside)))
         for x in range(w):
             for y in range(h):
                 e, c = tile(x, y, W, H, 0, 0)
@@ -155,7 +168,39 @@ def part_ragged(acc):
                                   "ragged %dx%d chip (%d,%d): eth %r coord %r,"
                                   " expected %r %r" % (w, h, x, y, ge, gc, e,
                                                        c))
-    acc.sample(dict(part="ragged", sizes=scope("quick")["ragged"]))
+    acc.sample(dict(part="ragged", sizes=RAGGED, roots=len(RAGGED_ROOTS)))
+
+
+def part_history(acc):
+    """The same chips queried for different machine sizes and roots one
+    after another in one process (answers must not depend on earlier
+    queries)."""
+    from rig import geometry as g
+    from rig.links import Links
+    sizes = [(12, 12), (24, 24), (24, 12), (12, 36), (36, 36)]
+    roots = [(0, 0), (4, 8), (5, 7)]
+    chips = [(0, 4), (11, 11), (0, 0), (5, 0), (3, 7), (8, 3), (11, 0)]
+    queries = [(s_, r, c) for s_ in sizes for r in roots for c in chips]
+    for order in (queries, queries[::-1], queries[::3] + queries[1::3] +
+                  queries[2::3]):
+        for (W, H), (rx, ry), (x, y) in order:
+            acc.evaluations += 1
+            acc.nontrivial += 1
+            e, c = tile(x, y, W, H, rx, ry)
+            ge = tuple(g.spinn5_local_eth_coord(x, y, W, H, rx, ry))
+            gc = tuple(g.spinn5_chip_coord(x, y, rx, ry))
+            gl = [g.spinn5_fpga_link(x, y, Links(l), rx, ry)
+                  for l in range(6)]
+            wl = [g.SPINN5_FPGA_LINKS.get((c[0], c[1], Links(l)))
+                  for l in range(6)]
+            if ge != e or gc != c or gl != wl:
+                acc.violation(dict(kind="history_dependent"),
+                              dict(part="history"),
+                              "after earlier queries, chip (%d,%d) in %dx%d "
+                              "root %r: eth %r coord %r, expected %r %r"
+                              % (x, y, W, H, (rx, ry), ge, gc, e, c))
+                return
+    acc.sample(dict(part="history", queries=len(queries)))
 
 
 def part_fpga(acc):
@@ -259,6 +304,8 @@ def run_shard(params, tier, acc):
         part_ragged(acc)
     elif p == "fpga":
         part_fpga(acc)
+    elif p == "history":
+        part_history(acc)
     else:
         part_dims(tier, acc)
 
@@ -271,5 +318,7 @@ def replay(case, acc):
         part_ragged(acc)
     elif p == "fpga":
         part_fpga(acc)
+    elif p == "history":
+        part_history(acc)
     else:
         part_dims("quick", acc)
